@@ -12,6 +12,7 @@ import NanoVerif.Model.Csv
 import NanoVerif.Model.Valid
 import NanoVerif.Model.PaintedLayers
 import NanoVerif.Model.Ninja
+import NanoVerif.Model.Sem
 import NanoVerif.Model.Sched
 import NanoVerif.Model.ColrSvg
 import NanoVerif.Model.Shape
@@ -225,6 +226,15 @@ def dispatch (op : String) (j : Json) : Except String Json := do
         | _ => .error "rule")
       let inputs ← (← getArr (← field j "inputs")).mapM getNats
       return obj [("out", Json.arr (inputs.map (fun i => Json.arr ((shapeLig rules (i.length + 1) i).map (fun g => jI (Int.ofNat g))).toArray)).toArray)]
+  | "try-reuse" =>
+      let tolv ← getQ (← field j "tolerance")
+      let oracle ← match fieldOpt j "affine" with
+        | some (.null) => pure none
+        | some a => do pure (some ((0 : Nat), ← getAff a))
+        | none => pure none
+      match tryReuse tolv oracle with
+      | some (_, t) => return obj [("reuse", jAff t)]
+      | none => return obj [("reuse", Json.null)]
   | "apply-paint" =>
       let p ← getCP (← field j "paint")
       let U ← getAff (← field j "U")
